@@ -170,9 +170,9 @@ def run(ctx, R):
              "to_instr maps CompareNumber::%s to Instruction::%s" % (base, var2instr.get(base)), F.where(ti))
 
     # ---- Ord / PartialEq for Number -------------------------------------------------------------
-    cmpf = F.find("arithmetic::<impl std::cmp::Ord for forms::Number>::cmp")
-    eqf = F.find("arithmetic::<impl std::cmp::PartialEq for forms::Number>::eq")
-    pcf = F.find("arithmetic::<impl std::cmp::PartialOrd for forms::Number>::partial_cmp")
+    cmpf = F.find_impl("Number", "std::cmp::Ord", "cmp")
+    eqf = F.find_impl("Number", "std::cmp::PartialEq", "eq", trait_args="")
+    pcf = F.find_impl("Number", "std::cmp::PartialOrd", "partial_cmp", trait_args="")
     VARS = ["Fixnum", "Integer", "Rational", "Float"]
 
     def pair_table(fn):
@@ -233,5 +233,5 @@ def run(ctx, R):
     # partial_cmp == Some(cmp)
     ph = F.hir(pcf)
     calls = [r for _, r, _ in hir_calls(ph["body"])]
-    ok = NUM_CMP in calls and any((n.get("ctor") or "").endswith("Some") for n in walk(ph["body"])) and not list(matches_in(ph["body"], src=None))
+    ok = cmpf in calls and any((n.get("ctor") or "").endswith("Some") for n in walk(ph["body"])) and not list(matches_in(ph["body"], src=None))
     R.ob("C04:Number::partial_cmp:is-Some-cmp", ok, "callees %s" % sorted(set(short(c) for c in calls)), F.where(pcf))
